@@ -8,7 +8,7 @@ META = {
              'sample in the quick tier, all k in the thorough tier); (ii) storage operations through a '
              'LocalStorage subclass: open of metadata/data fails before or after the file exists, j-th write() of '
              'either file fails (all j), flush fails, close fails; (iii) an object whose pickling raises TypeError or SystemExit (a failure that is not an Exception) / a non-JSON-able object, at depth '
-             '0/2/5 of a small or ~300 KiB result; x cache format {pickle, json, pickle with a task type whose post_init rewrites a parameter} x {first save, overwrite of an '
+             '0/2/5 of a small or ~300 KiB result (also on an upload-on-close storage provider, where a file only comes into being when its handle is closed, by whomever); x cache format {pickle, json, pickle with a task type whose post_init rewrites a parameter} x {first save, overwrite of an '
              'existing entry via bust_cache} x result shape {small, nested, big} x victim {serial caller, fork '
              'worker}. Oracle on the post-state, asked of the very Lab that ran the failing save (it has looked at the entry before the run) and of a fresh Lab: the victim is absent from the '
              'returned dict; if is_cached or cached_tasks report it, run_tasks must load it and return the old or '
@@ -50,7 +50,7 @@ def run_case(case, rep=None, count_only=False):
     out = {'fired': None, 'bad': bad, 'n_lines': None, 'writes': {}}
     try:
         def lab(backend='serial', cof=True):
-            return labtech.Lab(storage=make_storage('faulty', store), runner_backend=backend, max_workers=2,
+            return labtech.Lab(storage=make_storage(case.get('storage', 'faulty'), store), runner_backend=backend, max_workers=2,
                                context={}, continue_on_failure=cof)
 
         def val(name, gen):
@@ -127,6 +127,9 @@ def run_case(case, rep=None, count_only=False):
             if 'b' not in names:
                 bad.append(('bystander-lost', 'the bystander task is missing from the result'))
         # ---- post state
+        import gc
+        res = exc = None
+        gc.collect()        # handles the failed save left open are closed now at the latest
         engine.write_plan(ctl, 2)
         for which, lab2 in (('the Lab that ran the failing save', the_lab), ('a fresh Lab', lab('serial'))):
             if rep is not None:
@@ -241,6 +244,12 @@ def enumerate_cases(rep, stride_fork):
                                 for base in ((False, True) if cache == 'NS' else (False,)):
                                     cases.append({'cache': cache, 'mode': mode, 'shape': shape, 'backend': backend,
                                                   'fault': {'kind': 'unpicklable', 'depth': depth, 'big': big, 'base': base}})
+                                    if depth != 2:
+                                        # ... and on a storage provider whose files only come into being when their
+                                        # handle is closed (object-store style)
+                                        cases.append({'cache': cache, 'mode': mode, 'shape': shape, 'backend': backend,
+                                                      'storage': 'upload',
+                                                      'fault': {'kind': 'unpicklable', 'depth': depth, 'big': big, 'base': base}})
     return cases
 
 
